@@ -690,6 +690,8 @@ def replay(rj):
             o.pop("scenario_json", None)
         elif rj["kind"] == "early-close":
             o = early_close_case(ninja)
+        elif rj["kind"] == "late-output":
+            o = late_output_case(ninja)
         elif rj["kind"] == "slow-to-die":
             o = _slow_to_die_case((rj["signal"], ninja, {3: True, 4: "mixed"}.get(rj.get("variant"), False)))
         elif rj["kind"] == "signal-outside-wait":
@@ -958,3 +960,57 @@ def c06_process_level(c):
              "choices": p["choices"], "signal_at": p["signal_at"], "explicit_j": p.get("explicit_j"), "problems": p["problems"]})
     return {"real_jobserver_cases": r["cases"], "real_jobserver_max_running_seen": r["max_running_seen"],
             "real_jobserver_samples": r["sample"]}
+
+
+# ---- C20 through real pipes: output that arrives late, from a process the command left behind ------------------------
+# `(sleep 0.4; echo late) & echo early`: the shell exits at once, its background child still holds the pipe and writes
+# after that.  What the command wrote -- all of it, by whichever process -- is shown once, in one block under its
+# status line; ninja reads a command's pipe until every writer has closed it.
+LATE_OUTPUT_MANIFEST = """rule bg
+  command = (sleep 0.4; echo late-from-$out) & echo early-from-$out
+rule plain
+  command = echo plain-$out
+build a: bg
+build b: bg
+build c: plain
+build all: phony a b c
+default all
+"""
+
+
+def late_output_case(ninja):
+    root = tempfile.mkdtemp(prefix="rblate.", dir=rb.SHM)
+    out = {"scenario": "late_output", "problems": []}
+    try:
+        with open(os.path.join(root, "build.ninja"), "w") as f:
+            f.write(LATE_OUTPUT_MANIFEST)
+        p = subprocess.run([ninja, "-j3"], cwd=root, stdout=subprocess.PIPE, stderr=subprocess.STDOUT, timeout=120)
+        t = p.stdout.decode("latin-1")
+        out["exit"] = p.returncode
+        out["transcript"] = t[-600:]
+        if p.returncode != 0:
+            out["problems"].append("exit status %d" % p.returncode)
+        lines = t.split("\n")    # (whole lines: the status lines quote the command text, which contains the same words)
+        for name in ("a", "b"):
+            early, late = "early-from-" + name, "late-from-" + name
+            together = sum(1 for i in range(len(lines) - 1) if lines[i] == early and lines[i + 1] == late)
+            if together != 1 or lines.count(early) != 1 or lines.count(late) != 1:
+                out["problems"].append("what the command of '%s' wrote (two lines, the second one by a process it left behind) is not shown "
+                                       "once as one block: early %d time(s), late %d time(s), together %d time(s)" % (
+                                           name, lines.count(early), lines.count(late), together))
+        if lines.count("plain-c") != 1:
+            out["problems"].append("the output of 'c' is shown %d times" % lines.count("plain-c"))
+    except Exception as e:  # noqa
+        out["problems"].append("exception: %r" % (e,))
+    finally:
+        shutil.rmtree(root, ignore_errors=True)
+    return out
+
+
+def c20_process_level(c):
+    ninja, _ = rb.build_tools()
+    o = late_output_case(ninja)
+    if o["problems"]:
+        c.violation("C20/process-level late output: %s" % "; ".join(o["problems"]),
+                    {"engine": "rb", "kind": "late-output", "problems": o["problems"], "transcript": o.get("transcript")})
+    return {"real_pipe_cases": 1}
